@@ -9,7 +9,7 @@ from warnings import warn
 
 import numpy as np
 
-from quansino.mc.contexts import Context, detach_results
+from quansino.mc.contexts import Context, detach_results, still_describes
 from quansino.mc.criteria import BaseCriteria
 from quansino.mc.driver import SingleDriver
 from quansino.moves.composite import CompositeMove
@@ -220,7 +220,13 @@ class MonteCarlo(SingleDriver, Generic[MoveType, CriteriaType]):
             )
 
         try:
-            self.context.last_results = detach_results(self.atoms.calc)
+            # results that still describe the calculator's state are kept as they are: a
+            # run split in two must restore, after a rejected trial, what the unsplit run
+            # restores, not in addition a property an observer asked for in between
+            if not still_describes(
+                self.context.last_results, self.atoms.calc.results  # type: ignore[try-attr]
+            ):
+                self.context.last_results = detach_results(self.atoms.calc)
         except AttributeError:
             warn(
                 "Atoms object does not have calculator attached, or does not support the `results` attribute.",
